@@ -96,7 +96,8 @@ def r_tables(ctx):
     if not ctx.need(f is not None, rule, 'upgrade::cosine_from_0_4_to_0_5'):
         return None
     # U1
-    a = F.adts.get('upgrade::cosine_from_0_4_to_0_5::OldNodeMode')
+    cands = [k for k in F.adts if k.startswith('upgrade::') and k.endswith('::OldNodeMode')]
+    a = F.adts.get(cands[0]) if len(cands) == 1 else None
     if ctx.need(a is not None, 'U1', 'OldNodeMode'):
         got = {v['name']: int(v['discr']) for v in a['variants']}
         ctx.check(got == ref['old_node_mode'], 'U1', 'OldNodeMode/discriminants', '', '%s' % got,
@@ -113,34 +114,40 @@ def r_tables(ctx):
                       'TryFrom<u8> for OldNodeMode maps %s; v0.4 layout %s' % (table, ref['old_node_mode']))
     old = ref['old_node_mode']
     inv = {v: k for k, v in old.items()}
-    tabs = mode_tables(ctx, f)
-    key_t = {k: v for k, v in tabs.items() if k.startswith('key')}
-    left_t = {k: v for k, v in tabs.items() if 'left' in k}
-    right_t = {k: v for k, v in tabs.items() if 'right' in k}
-    ctx.need(len(key_t) == 1 and len(left_t) == 1 and len(right_t) == 1, rule, 'mode assignments for key / left / right (found %s)' % sorted(tabs))
-    if not (key_t and left_t and right_t):
+    # finite-domain evaluation (sa/enumeval.py): for every old kind byte (and, for metadata-kind keys, every id class) which
+    # NodeMode is assigned to the key / the left link / the right link.  Independent of how the mapping is spelled
+    # (nested matches, helper functions, try_from + map_err, ...).
+    import enumeval
+    nm = F.adts.get('node_id::NodeMode')
+    if not ctx.need(nm is not None, rule, 'NodeMode'):
         return f
+    new_name = {int(v['discr']): v['name'] for v in nm['variants']}
 
-    def simple(tab, place_kw):
+    def table(P, with_item):
         out = {}
-        for (o, item), new in tab.items():
-            if o is None or place_kw not in o[0]:
-                out[('?', item)] = new
-                continue
-            for v in o[1]:
-                out[(inv.get(v, v), item[0] if item else None)] = new
+        for v in sorted(inv) + [max(inv) + 1]:
+            for w in ((0, 1, 2) if with_item and inv.get(v) == 'Metadata' else (None,)):
+                enumeval.reset()
+                assume = {P + '.mode': v}
+                if w is not None:
+                    assume['key.node.item'] = w
+                ev = enumeval.Eval(F, f, assume=assume, watch=lambda t, P=P: t == P + '.mode').run()
+                got = set()
+                for k2, vals in ev.assigned.items():
+                    if vals is None:
+                        got.add('?')
+                    else:
+                        got |= {new_name.get(x, x) for x in vals}
+                if got:
+                    out[(inv.get(v, v), w)] = '/'.join(sorted(map(str, got)))
         return out
-    kt = simple(list(key_t.values())[0], 'key')
+    kt = table('key.node', True)
     want_key = {('Item', None): 'Item', ('Tree', None): 'Tree', ('Metadata', 0): 'Metadata', ('Metadata', 1): 'Updated'}
-    # the item sub-switch is only taken in the Metadata arm: entries recorded with the enclosing old value
-    kt_norm = {}
-    for (o, it), new in kt.items():
-        kt_norm[(o, it)] = new
-    ctx.check(kt_norm == want_key, rule, 'key-kind-table', f.loc(), 'key: %s' % kt_norm,
-              'the key kind table of the 0.4->0.5 upgrade is %s; it must be %s' % (kt_norm, want_key))
+    ctx.check(kt == want_key, rule, 'key-kind-table', f.loc(), 'key: %s' % kt,
+              'the key kind table of the 0.4->0.5 upgrade is %s; it must be %s' % (kt, want_key))
     want_child = {('Item', None): 'Item', ('Tree', None): 'Tree', ('Metadata', None): 'Metadata'}
-    lt = simple(list(left_t.values())[0], 'left')
-    rt = simple(list(right_t.values())[0], 'right')
+    lt = table('split.left', False)
+    rt = table('split.right', False)
     ctx.check(lt == want_child, rule, 'left-child-table', f.loc(), 'left: %s' % lt, 'left child kinds are re-tagged by %s (from the left child\'s own old kind); expected %s' % (lt, want_child))
     ctx.check(rt == want_child, rule, 'right-child-table', f.loc(), 'right: %s' % rt, 'right child kinds are re-tagged by %s (from the right child\'s own old kind); expected %s' % (rt, want_child))
     return f
@@ -273,9 +280,9 @@ def r_v06(ctx):
             if paths.mentions_call(e[1], g0.bb) and ((n.endswith('::is_some') and e[2]) or (n.endswith('::is_none') and not e[2])):
                 dom = paths.edge_dominates(f, s, x, c.bb)
     ctx.check(dom, rule, 'only-indexes-with-metadata', c.loc(), 'guarded by metadata presence', 'the version record is written regardless of (or contrary to) the presence of metadata')
-    # loop over 0..=u16::MAX
-    rng = [s for cc in f.calls() for s in walk(cc.arg_term(0)) if cc.callee.endswith('Iterator::next') and s[0] == 'call' and s[1].endswith('RangeInclusive::<Idx>::new')]
-    okr = bool(rng) and const_eval(rng[0][2][0]) == 0 and const_eval(rng[0][2][1]) == 65535
+    # the probed / stamped index ranges over every u16
+    from rules import every_u16
+    okr = gi is not None and every_u16(f, gi[1])
     ctx.check(okr, rule, 'all-indexes', f.loc(), 'loops over 0..=65535', 'the 0.5->0.6 upgrade does not visit every index 0..=65535')
     # database roles
     rdb, wdb, _wtx = db_params(f)
